@@ -208,6 +208,8 @@ tagspec(struct scope *s)
 	} else {
 		if (kind == TYPEENUM) {
 			t = mktype(kind, PROPSCALAR|PROPARITH|PROPREAL|PROPINT);
+			t->size = 0;
+			t->align = 0;
 			t->base = et;
 		} else {
 			t = mktype(kind, 0);
